@@ -286,6 +286,10 @@ def gen_haarseg(rng, k):
             if "ideal" in c and not (abs(c["ideal"]["hi"] - c["ideal"]["lo"]) >= 0.585):
                 # weighted float path: rounding noise makes spurious peaks, small steps are then not claimed
                 c["ideal_excluded"] = c.pop("ideal")
+            if c.pop("flat", None):
+                # weighted float path on a constant: the quotients carry rounding noise, a level with a single noise
+                # peak takes threshold 0 (observation Y in the report); outside the property (no noise, any length)
+                c["flat_unclaimed"] = True
             c["w"], _e = _weights(rng, len(I), rng.choice(["dyadic", "uniform", "ones"]))
             exact = False
             tag += "-weighted"
